@@ -30,7 +30,7 @@ func draw(t *rapid.T) *pbt.Case {
 	g := gen.Default(str).Boost(2, "uwrapcause", "uwrapsafefmt", "pkgmsg", "pkgstack", "pkgwrap", "uwrapnofmt", "uopt", "risleaf", "sentinel", "ospath", "netop", "dnswrap")
 	// A multi-error type that also has a Cause() method (only used here:
 	// the library sees it as single-cause wrapper and multi-cause error at once).
-	g = g.With("umulticauser", "umulticauser", "umultiis", "umultiis")
+	g = g.With("umulticauser", "umulticauser", "umultiis", "umultiis", "umultiholes", "umultiholes", "ucodedanon", "ucodedanon", "uzeroa", "uzerob")
 	g.WMulti = 2
 	c := &pbt.Case{}
 	c.Spec = g.Draw(t, rapid.IntRange(1, maxB).Draw(t, "budget"))
